@@ -370,6 +370,45 @@ def c12_6(ck, prog, rid='C12.6'):
     r.note('%d byte-moving string primitives examined' % n)
 
 
+def c12_9(ck, prog, rid='C12.9'):
+    r = ck.rule(rid, 'a header field that could not be appended completely is removed again from where the append began: '
+                'the roll-back in write_basic_field deletes from the position saved before the first write, up to the '
+                'padding that was there before', 'PAIR',
+                breaks='a set_* call that fails half-way (out of memory while the header grows) returns FALSE but leaves '
+                'the alignment padding and the field code behind: the message no longer marshals to a valid message',
+                floor=2)
+    fn = prog.fn('write_basic_field', HDR)
+    wid = fn.params[0]['id']
+    dels = [c for b, i, c in fn.calls('_dbus_string_delete')]
+    if len(dels) != 1:
+        raise AnalysisBroken('write_basic_field: expected one roll-back deletion')
+    d = dels[0]
+    first_write = min([c['line'] for b, i, c in fn.calls() if (c.get('callee') or '').startswith('_dbus_type_writer_')] or [0])
+    defs = {}
+    for b, i, ev in fn.events():
+        for lhs, how, rhs in written_lvalues(ev):
+            if is_ref(lhs) and lhs.get('kind') == 'local' and how in ('=', 'decl') and rhs is not None:
+                defs.setdefault(lhs['id'], []).append((rhs, ev['line']))
+    pos = d['args'][1]
+    oks = is_ref(pos) and len(defs.get(pos.get('id'), [])) == 1 and \
+        is_member(defs[pos['id']][0][0], 'value_pos', 'DBusTypeWriter') and \
+        is_ref(defs[pos['id']][0][0]['base']) and defs[pos['id']][0][0]['base'].get('id') == wid and \
+        defs[pos['id']][0][1] < first_write
+    if oks:
+        r.ok('write_basic_field:rollback-from-saved-position')
+    else:
+        r.violation('write_basic_field:rollback-from-saved-position', fn.name, HDR, d['line'],
+                    'the roll-back deletes from %s, which is not the writer position saved before the first write' % estr(pos))
+    ln = d['args'][2]
+    mentions_pos = any(is_ref(x) and x.get('id') == pos.get('id') for x in walk(ln)) if is_ref(pos) else False
+    has_len = any(is_call(x, '_dbus_string_get_length') for x in walk(ln))
+    if mentions_pos and has_len and ln.get('k') == 'bin' and ln['op'] == '-':
+        r.ok('write_basic_field:rollback-length')
+    else:
+        r.violation('write_basic_field:rollback-length', fn.name, HDR, d['line'],
+                    'the roll-back length %s is not "current length - saved position - padding"' % estr(ln))
+
+
 def run(ck):
     ck.explanation = (
         'Static rules over dbus/dbus-marshal-header.c, dbus/dbus-marshal-recursive.c, dbus/dbus-message.c: '
@@ -387,6 +426,7 @@ def run(ck):
         c12_4(ck, prog)
         c12_5(ck, prog)
         c12_6(ck, prog)
+        c12_9(ck, prog)
         # header edits marshal with the message's own byte order (shared with C02.5)
         from rules.C02 import c02_5
         r7 = ck.rule('C12.7', 'every marshalling call a header edit makes on the message\'s own bytes is given the '
